@@ -119,7 +119,7 @@ def check(rep, model, tier):
                                  'return_samples': ('param', 'return_samples')}, site)
     c11.noninterference(rep, model, 'compute_features_3d', lambda m, kw, ax: run3d(m, kw, ax), site)
     summ, det, rounds, ro = common.effects(model)
-    for name in ('compute_features_3d', '_proxy_3d'):
+    for name in ('compute_features_3d',):       # the proxy runs in worker processes on pickled copies
         f = model.find(name)
         if summ[f.qual]['mut']:
             a = det[f.qual]
